@@ -23,7 +23,10 @@ section); the model is tied to the code per run (static phase against the real
 `MakePipelineCallGraph`, run-time phase against the real resolver's delivered
 arguments), and for the shapes outside the proved fragment the refinement is
 still established per run by trace checking (harness/c01.go ↔ Driver/C01.lean
-`C01.check`).
+`C01.check`).  Later sections extend the proved fragment: map calls of stages over literals,
+sizes known after resolution, mapped pipelines and nested map calls, run-time `disabled` controls
+(modulo the rendering of `dnull`, `J.approx`), array-mode map calls of run-time size (given the
+recorded index sets).
 -/
 import Martian.Dataflow
 import Martian.Resolver
@@ -35,6 +38,9 @@ import Proofs.ResolverStaticCheck
 import Proofs.ResolverStaticMapCheck
 import Proofs.ResolverStaticMapGCheck
 import Proofs.ResolverStaticTreeCheck
+import Proofs.ResolverStaticDisCheck
+import Proofs.ResolverStaticRun
+import Proofs.DataflowApprox
 import Proofs.ResolverStaticEvalR
 import Proofs.ResolverStaticExample
 
@@ -207,19 +213,45 @@ inside the wrapper, and the wrapped expression is well shaped -/
 example :
     wtR [("R", [⟨"r", ⟨"int", 0, 0⟩⟩])] ⟨"R", 0, 1⟩
       (.disabled (.ref "FLAG" ⟨"FLAG", 0, 0⟩ ["on"])
-        (.merge "INNER" false (.struct [("r", .split "INNER" false (.ref "GEN" ⟨"GEN", 0, 0⟩ []))]))) = true
+        (.merge "INNER" false (.struct [("r", .ref "INNER.W" ⟨"W", 0, 0⟩ ["y"])]))) = true
     ∧ bpR "r" (.disabled (.ref "FLAG" ⟨"FLAG", 0, 0⟩ ["on"]) (.ref "GEN" ⟨"GEN", 0, 0⟩ ["o"]))
       = .disabled (.ref "FLAG" ⟨"FLAG", 0, 0⟩ ["on"]) (.ref "GEN" ⟨"GEN", 0, 0⟩ ["o", "r"]) := by
   constructor
   · decide
   · simp [bpR, mkDisabled]
 
-/-- non-vacuity: a merge over `INNER` of a struct whose member is a split reference,
-projected by that member (the A.1 shape after static resolution) is well shaped -/
+/-- non-vacuity: a merge over `INNER` of a struct of references to a node inside it, projected by
+a member, is a merge of the projected reference -/
 example :
     wtR [("R", [⟨"r", ⟨"int", 0, 0⟩⟩])] ⟨"R", 0, 1⟩
-      (.merge "INNER" false (.struct [("r", .split "INNER" false (.ref "GEN" ⟨"GEN", 0, 0⟩ []))])) = true := by
-  decide
+      (.merge "INNER" false (.struct [("r", .ref "INNER.W" ⟨"W", 0, 0⟩ ["y"])])) = true ∧
+    bpR "r" (.merge "INNER" false (.struct [("r", .ref "INNER.W" ⟨"W", 0, 0⟩ ["y"])]))
+      = .merge "INNER" false (.ref "INNER.W" ⟨"W", 0, 0⟩ ["y"]) := by
+  constructor
+  · decide
+  · simp [bpR, mkMerge]
+
+/-- `MergeExp.BindingPath` on the A.1 shape (a mapped pipeline that returns its split input):
+"merging the elements of a collection which was split over the very same call gives back the
+collection" — the projection of the merge is the split SOURCE, not a merge (`mkMerge`).  Such a
+merge is excluded from `wtR` (the shape discipline of `bindingPath_sound_forks`): the
+cancellation is sound exactly for the stores in which the index set of the call is that of the
+collection and the collection does not vary with the call's fork: -/
+theorem merge_split_cancel_sound (st : StructTable) (ρ : Store) (f : ForkAssign) (c : String) (v : RExp)
+    (xs : List J) (hv : evalR st ρ f v = .arr xs)
+    (hind : ∀ k, k < xs.length → evalR st ρ (fset f c (.i k)) v = .arr xs)
+    (hidx : ρ.idx c f = (List.range xs.length).map .i) :
+    evalR st ρ f (.merge c false (.split c false v)) = evalR st ρ f v :=
+  merge_split_cancel_arr st ρ f c v xs hv hind hidx
+
+example :
+    bpR "r" (.merge "INNER" false (.struct [("r", .split "INNER" false (.ref "GEN" ⟨"GEN", 0, 0⟩ ["xs"]))]))
+      = .ref "GEN" ⟨"GEN", 0, 0⟩ ["xs"] ∧
+    -- … but not when the collection itself is an element of an enclosing split
+    bpR "r" (.merge "INNER" false (.struct [("r", .split "INNER" false
+        (.split "OUTER" false (.ref "GEN" ⟨"GEN", 0, 0⟩ ["xss"])))]))
+      = .merge "INNER" false (.split "INNER" false (.split "OUTER" false (.ref "GEN" ⟨"GEN", 0, 0⟩ ["xss"]))) := by
+  constructor <;> simp [bpR, mkMerge, hasSplitR]
 
 /-- Fork-index substitution on a split literal: the expression selected for fork
 `ix` denotes the `ix`-th element of the collection the literal denotes. -/
@@ -637,12 +669,16 @@ theorem resolver_refines_den_mappedpipes_checked (P : Program) (nm : List String
 
 /-- Specialising a resolved expression to fork `k` of a mapped call (`BindingPath` with a known fork
 index) is evaluating it in that fork — for every store that reads fork assignments through their
-lookups — and keeps it well typed. -/
+lookups — and keeps it well typed.  (`HasTyR` now admits the `merge` nodes of array-mode map calls of
+run-time size — they stay merges, evaluated in that fork; `hnm`: the expression contains no merge
+over `c` itself, which the outputs of `c`'s callee never do: for such a merge the compiler returns
+the merged value of that fork instead.) -/
 theorem specialise_to_fork_sound (st : StructTable) (hst : StructsOk st) (F : Nat) (ρ : Store)
-    (hρ : StoreExt ρ) (c : String) (k : Nat) (e : RExp) (t : Ty) (f : ForkAssign) (h : HasTyR st t e) :
+    (hρ : StoreExt ρ) (c : String) (k : Nat) (e : RExp) (t : Ty) (f : ForkAssign) (h : HasTyR st t e)
+    (hnm : noMergeOf c e = true) :
     evalRT st F ρ f t (pushFork c (.i k) e) = evalRT st F ρ (fset f c (.i k)) t e ∧
     HasTyR st t (pushFork c (.i k) e) :=
-  pushFork_evalRT st hst F ρ hρ c k e t f h
+  pushFork_evalRT st hst F ρ hρ c k e t f h hnm
 
 /-- The run-time phase depends on a fork assignment only through its lookups (the order in which
 the roots were bound does not matter). -/
@@ -666,6 +702,216 @@ example :
       (fun i => i.args.matches (.obj [("x", .atom "5"), ("k", .atom "11")])) = some true := by decide
 
 example (nodes : List SNode) (O : Oracle) : StoreExt (storeOfNodes exNm nodes O) := storeOfNodes_ext _ _ _
+
+/-! ### run-time `disabled` controls: the refinement modulo the rendering of "no value"
+
+den writes `dnull` for every output of a disabled call ("no value"); the property text lets an
+implementation render it as null, an empty collection or a collection of nulls.  `e ≈ o`
+(`J.approx e o`) says exactly that: `o` is `e` with every `dnull` replaced by such a value, and
+everything else equal.  `≈` is a congruence for the value operations downstream of the disabled
+call, it is equality on values without `dnull`, and the model of the code renders `dnull` as JSON
+null (`J.erase`). -/
+
+example : J.approx .dnull .null = true ∧ J.approx .dnull (.arr []) = true ∧ J.approx .dnull (.obj []) = true ∧
+    J.approx .dnull (.arr [.null, .null]) = true ∧ J.approx .dnull (.obj [("a", .null)]) = true ∧
+    J.approx .dnull (.atom "0") = false ∧ J.approx .dnull (.arr [.atom "0"]) = false ∧
+    J.approx (.arr [.atom "1", .dnull]) (.arr [.atom "1", .arr []]) = true ∧
+    J.approx (.arr [.atom "1", .dnull]) (.arr [.atom "2", .null]) = false ∧
+    J.approx .null (.arr []) = false := by decide
+
+theorem approx_refl (v : J) : J.approx v v = true := Proofs.Approx.approx_refl v
+
+/-- rendering every `dnull` as JSON null is one of the allowed renderings -/
+theorem approx_erase (v : J) : J.approx v (J.erase v) = true := Proofs.Approx.approx_erase v
+
+/-- where den has a value (no `dnull` inside), `≈` leaves no freedom -/
+theorem approx_is_eq_on_values (e o : J) (hc : J.clean e = true) (h : J.approx e o = true) : e = o :=
+  Proofs.Approx.approx_clean e o hc h
+
+/-- `≈` is a congruence for projection (one step at a type, through arrays and typed maps; a path) … -/
+theorem approx_project (st : StructTable) (t : Ty) (path : List String) (e o : J)
+    (h : J.approx e o = true) : J.approx (projPath st t path e) (projPath st t path o) = true :=
+  (Proofs.Approx.cong_projPath st path t).2 e o h
+
+/-- … for narrowing to a declared type … -/
+theorem approx_narrow (st : StructTable) (F : Nat) (t : Ty) (e o : J) (h : J.approx e o = true) :
+    J.approx (narrow st F t e) (narrow st F t o) = true :=
+  (Proofs.Approx.cong_narrow st F t).2 e o h
+
+/-- … for collection building (arrays, typed maps / structs: same keys, `≈` members) … -/
+theorem approx_collect (ixs : List Idx) (g g' : Idx → J) (h : ∀ ix ∈ ixs, J.approx (g ix) (g' ix) = true) :
+    J.approx (.arr (ixs.map g)) (.arr (ixs.map g')) = true ∧
+    J.approx (.obj (ixs.map fun ix => (ix.keyText, g ix))) (.obj (ixs.map fun ix => (ix.keyText, g' ix))) = true := by
+  simp only [J.approx]
+  induction ixs with
+  | nil => simp [J.approxList, J.approxFields]
+  | cons ix ixs ih =>
+    simp only [List.map_cons, J.approxList, J.approxFields, Bool.and_eq_true, beq_self_eq_true, true_and]
+    have := ih fun i hi => h i (by simp [hi])
+    exact ⟨⟨h ix (by simp), this.1⟩, h ix (by simp), this.2⟩
+
+/-- … and hence for the evaluation of every binding expression in `≈` environments. -/
+theorem approx_eval (st : StructTable) (env env' : Env) (h : Proofs.Approx.EnvApprox env env') (e : Exp) :
+    J.approx (eval st env e) (eval st env' e) = true :=
+  Proofs.Approx.approx_eval st env env' h e
+
+/-- `≈` keeps "is null-like" (so a `disabled` control / an emptiness test downstream agrees) -/
+theorem approx_nullish (e o : J) (h : J.approx e o = true) : o.nullish = e.nullish :=
+  Proofs.Approx.approx_nullish e o h
+
+/--
+THE REFINEMENT WITH RUN-TIME `disabled` CONTROLS ON PLAIN CALLS, anywhere in a call graph with
+mapped pipelines and nested map calls of statically known size (array mode): the model of the
+code delivers den's top-level outputs and, for every stage instance of den in den's order (the
+instances below a disabled call are absent on both sides), den's arguments — with every `dnull`
+rendered as JSON null.
+
+Additional hypotheses over `resolver_refines_den_mappedpipes_partial`: every literal of the
+program is null or a scalar (`Exp.clean`; what the parser produces) and the recorded outputs are
+JSON values.  NOT COVERED: `disabled` on a map call, a control that is itself an element of a split
+collection; everything not covered by `resolver_refines_den_mappedpipes_partial`.
+FULL STATEMENT aimed at: the same for every well-typed program.
+-/
+theorem resolver_refines_den_disabled_partial (P : Program) (nm : List String → String) (O : Oracle)
+    (ρ : Store) (hw : WellTypedE P) (hfix : NarrowFix P.table P.nfuel) (hext : StoreExt ρ)
+    (hO : OracleClean O)
+    (hρ : ∀ n ∈ flattenTList [] (staticProgramT P nm).2, StoreAtNode nm O ρ n)
+    (hok : treeOkList [] (staticProgramT P nm).2 = true) :
+    eraseRun (den P O) = twoPhaseT P nm ρ :=
+  twoPhaseE_eq_den_F P hw P.nfuel hfix nm O hO ρ hext hρ hok
+
+/-- … with DECIDABLE hypotheses (`h5`: for an oracle given by a finite record, a check of every
+recorded value) and the store built from the oracle and the call graph. -/
+theorem resolver_refines_den_disabled_checked (P : Program) (nm : List String → String) (O : Oracle)
+    (h1 : wellTypedEB P = true) (h2 : acyclicB P.table = true)
+    (h3 : treeOkList [] (staticProgramT P nm).2 = true)
+    (h4 : ((flattenTList [] (staticProgramT P nm).2).map fun n => nm n.path).Nodup)
+    (h5 : ∀ k v, O k = some v → J.clean v = true) :
+    eraseRun (den P O)
+      = twoPhaseT P nm (storeOfNodes nm (flattenTList [] (staticProgramT P nm).2) O) :=
+  twoPhaseE_eq_den_F P (wellTypedEB_sound P h1) P.nfuel (narrowFix_of_acyclicB P.table h2) nm O h5 _
+    (storeOfNodes_ext nm _ O) (storeOfNodes_ok nm _ O h4) h3
+
+/-- … stated with `≈`: the outputs are a rendering of den's, the instances are den's (same keys, same
+order) and each receives a rendering of den's arguments. -/
+theorem resolver_refines_den_disabled_approx (P : Program) (nm : List String → String) (O : Oracle)
+    (h1 : wellTypedEB P = true) (h2 : acyclicB P.table = true)
+    (h3 : treeOkList [] (staticProgramT P nm).2 = true)
+    (h4 : ((flattenTList [] (staticProgramT P nm).2).map fun n => nm n.path).Nodup)
+    (h5 : ∀ k v, O k = some v → J.clean v = true) :
+    let t := twoPhaseT P nm (storeOfNodes nm (flattenTList [] (staticProgramT P nm).2) O)
+    J.approx (den P O).1 t.1 = true ∧ t.2.length = (den P O).2.length ∧
+    ∀ p ∈ (den P O).2.zip t.2, p.2.key = p.1.key ∧ J.approx p.1.args p.2.args = true := by
+  have h := resolver_refines_den_disabled_checked P nm O h1 h2 h3 h4 h5
+  intro t
+  have ht : t = (J.erase (den P O).1, (den P O).2.map eraseInst) := h.symm.trans rfl
+  rw [ht]
+  exact ⟨Proofs.Approx.approx_erase _, by simp, zip_map_eraseInst _⟩
+
+/-- the recorded outputs of a finite history are JSON values if each recorded value is -/
+theorem oracle_clean_of_history (h : List (InstKey × J)) (hc : h.all (fun e => J.clean e.2) = true) :
+    ∀ k v, oracleOfHistory h k = some v → J.clean v = true := by
+  intro k v hv
+  simp only [oracleOfHistory, Option.map_eq_some_iff] at hv
+  obtain ⟨e, he, rfl⟩ := hv
+  exact List.all_eq_true.mp hc e (List.mem_of_find?_eq_some he)
+
+/-- non-vacuity: a mapped pipeline whose body disables a call by a per-fork output of a sibling
+stage passes the checks … -/
+example : wellTypedEB exDis = true ∧ acyclicB exDis.table = true ∧
+    treeOkList [] (staticProgramT exDis exNm).2 = true ∧
+    ((flattenTList [] (staticProgramT exDis exNm).2).map fun n => exNm n.path).Nodup ∧
+    noGuardList (staticProgramT exDis exNm).2 = false := by decide
+
+/-- … den's outputs contain `dnull` (fork 1 of `q.a`), the model renders it as null; the disabled
+instance is absent: 3 + 2 + 3 + 1 instances; the consumer inside fork 1 receives nulls -/
+example :
+    J.clean (den exDis exDisOracle).1 = false ∧
+    (den exDis exDisOracle).1.approx (twoPhaseT exDis exNm exDisStore).1 = true ∧
+    (twoPhaseT exDis exNm exDisStore).1.matches
+      (.obj [("ys", .arr [.atom "40", .atom "41", .atom "42"]), ("qa", .arr [.atom "30", .null, .atom "32"]),
+             ("r", .atom "99")]) = true ∧
+    (twoPhaseT exDis exNm exDisStore).2.length = 9 ∧ (den exDis exDisOracle).2.length = 9 ∧
+    ((twoPhaseT exDis exNm exDisStore).2.find? fun i =>
+        i.key == ⟨["TOP", "INNER", "W2"], [("INNER", .i 1)]⟩).map
+      (fun i => i.args.matches (.obj [("x", .null), ("p", .null)])) = some true := by decide
+
+/-! ### map calls of run-time size -/
+
+/--
+THE REFINEMENT WITH ARRAY-MODE MAP CALLS OF RUN-TIME SIZE (the split sources are references; stages
+and pipelines, nested in each other and in statically sized map calls), next to everything of
+`resolver_refines_den_disabled_partial`, modulo `dnull ↦ null`.  The static phase resolves the
+outputs of such a call to a `merge` node and the run-time phase enumerates its elements from the
+index sets `ρ.idx` the run recorded.  GIVEN about those: `hidx` (decidable: checked along the forks
+that exist) they are the index sets of the collections the calls were split over, and not empty;
+`hloc` they depend only on the forks of the mapped calls around the call.
+
+NOT COVERED: typed-map mode; an empty / null source (den: `dnull` and optional instances); a callee
+that returns its split input (the cancelling `merge` of `merge_split_cancel_sound`); a source that
+is an element of a split over a STATICALLY sized call (the compiler then knows the size per fork);
+map calls in lockstep over the merged output of another map call.
+FULL STATEMENT aimed at: the same for every well-typed program.
+-/
+theorem resolver_refines_den_runtime_partial (P : Program) (nm : List String → String) (O : Oracle)
+    (ρ : Store) (hw : WellTypedE P) (hfix : NarrowFix P.table P.nfuel) (hext : StoreExt ρ)
+    (hO : OracleClean O)
+    (hρ : ∀ n ∈ flattenTList [] (staticProgramT P nm).2, StoreAtNode nm O ρ n)
+    (hok : treeOkPList [] (staticProgramT P nm).2 = true)
+    (hidx : idxOkTList P.table P.nfuel ρ [] (staticProgramT P nm).2 = true)
+    (hloc : ∀ o ∈ subROccList [] (staticProgramT P nm).2, IdxLocal ρ o.1 o.2.2) :
+    eraseRun (den P O) = twoPhaseT P nm ρ :=
+  twoPhaseR_eq_den_F P hw P.nfuel hfix nm O hO ρ hext ⟨hρ, hok, hidx, hloc⟩
+
+/-- … with DECIDABLE hypotheses, for the store built from the recorded outs `O` and the recorded
+index sets `I` of the run (`h6`: the run-time sized map calls have distinct call ids — the index sets
+of the model's store are keyed by call id). -/
+theorem resolver_refines_den_runtime_checked (P : Program) (nm : List String → String) (O : Oracle)
+    (I : IdxRec)
+    (h1 : wellTypedEB P = true) (h2 : acyclicB P.table = true)
+    (h3 : treeOkPList [] (staticProgramT P nm).2 = true)
+    (h4 : ((flattenTList [] (staticProgramT P nm).2).map fun n => nm n.path).Nodup)
+    (h5 : ∀ k v, O k = some v → J.clean v = true)
+    (h6 : ((subROccList [] (staticProgramT P nm).2).map (·.1)).Nodup)
+    (h7 : idxOkTList P.table P.nfuel
+      (storeOfRun nm (flattenTList [] (staticProgramT P nm).2) (subROccList [] (staticProgramT P nm).2) O I) []
+      (staticProgramT P nm).2 = true) :
+    eraseRun (den P O)
+      = twoPhaseT P nm
+          (storeOfRun nm (flattenTList [] (staticProgramT P nm).2) (subROccList [] (staticProgramT P nm).2) O I) :=
+  twoPhaseR_eq_den_F P (wellTypedEB_sound P h1) P.nfuel (narrowFix_of_acyclicB P.table h2) nm O h5 _
+    (storeOfRun_ext nm _ _ O I)
+    ⟨storeOfRun_ok nm _ _ O I h4, h3, h7, storeOfRun_local nm _ _ O I h6⟩
+
+/-- the fragment of the statically sized theorems is inside this one: a call graph without run-time
+sized calls needs nothing about index sets -/
+theorem runtime_fragment_extends_static (st : StructTable) (nf : Nat) (ρ : Store) :
+    ∀ (ts : List STree) (above : List String) (f : ForkAssign), treeOkList above ts = true →
+      treeOkPList above ts = true ∧ idxOkTList st nf ρ f ts = true ∧ ∀ dims, subROccList dims ts = [] :=
+  treeOk_implies_P st nf ρ
+
+/-- non-vacuity: a pipeline mapped over the array output of a stage, with a nested map call over an
+array output of a stage of its own fork, passes the checks for the recorded index sets … -/
+example : wellTypedEB exRun = true ∧ acyclicB exRun.table = true ∧
+    treeOkPList [] (staticProgramT exRun exNm).2 = true ∧
+    treeOkList [] (staticProgramT exRun exNm).2 = false ∧
+    ((flattenTList [] (staticProgramT exRun exNm).2).map fun n => exNm n.path).Nodup ∧
+    ((subROccList [] (staticProgramT exRun exNm).2).map (·.1)).Nodup ∧
+    idxOkTList exRun.table exRun.nfuel exRunStore [] (staticProgramT exRun exNm).2 = true := by decide
+
+/-- … 1 + 3·2 + (1 + 2 + 3) + 1 instances; the nested call's outputs arrive as a ragged array of arrays;
+the second nested instance of fork 2 receives element 1 of `zs` of ITS fork and the split value of the
+outer call -/
+example :
+    (twoPhaseT exRun exNm exRunStore).2.length = 14 ∧
+    (twoPhaseT exRun exNm exRunStore).1.matches
+      (.obj [("ys", .arr [.atom "10", .atom "11", .atom "12"]),
+             ("yss", .arr [.arr [.atom "1000"], .arr [.atom "1010", .atom "1011"],
+                           .arr [.atom "1020", .atom "1021", .atom "1022"]]),
+             ("r", .atom "99")]) = true ∧
+    ((twoPhaseT exRun exNm exRunStore).2.find? fun i =>
+        i.key == ⟨["TOP", "INNER", "W2"], [("INNER", .i 2), ("W2", .i 1)]⟩).map
+      (fun i => i.args.matches (.obj [("x", .atom "201"), ("k", .atom "7")])) = some true := by decide
 
 /-- non-vacuity: a map call of a stage over two array literals of length 3 (constants, a pipeline
 input, upstream outputs, a struct literal next to references that are narrowed WIDE → PAIR),
@@ -791,6 +1037,10 @@ The theorems of this section restate one branch of a definition of the model (`e
 They document how the specification reads; the manifest does not cite them as guarantees about
 the code (audit C01 M-3 / M-4).
 -/
+
+/-- `dnull ≈ o` iff `o` is null, or a collection of such values (in particular an empty one): the
+first clause of the definition of `J.approx`. -/
+theorem approx_dnull_iff (o : J) : J.approx .dnull o = o.nullish := Proofs.Approx.approx_dnull o
 
 /-- The run-time formulation of projection (`LazyArgumentMap.Path` / `resolvePath`:
 descend the value element by element) computes the specification's projection. -/
